@@ -293,3 +293,64 @@ pub fn confirm_event(w: &Value) -> Value {
         Ok(r) => json!({"contradicts": expect_ok.map(|e| e != r.is_ok()).unwrap_or(false), "real": format!("{r:?}"), "spec": format!("expected accepted: {expect_ok:?}")}),
     }
 }
+
+// ------------------------------------------------------------------------------------------ C19: input files (bounded)
+/// sort_run_files: files of one run in any command-line order come back sorted by initial timestamp; files of different runs and
+/// duplicate initial timestamps are refused; unknown extensions are refused
+pub fn c19_sort(_tier: &str) -> Value {
+    let target = "alpha_g_analysis::sort_run_files";
+    let bound = "every assignment of (run in {42, 43}, initial timestamp in {100, 200, 300, 400}) to 1..=4 files, in every command-line order";
+    let dir = std::env::temp_dir().join(format!("verif-c19-{}", std::process::id()));
+    let _ = std::fs::create_dir_all(&dir);
+    let mut cases = 0u64;
+    let mut fail: Option<String> = None;
+    'outer: for n in 1..=4usize {
+        let combos = 8usize.pow(n as u32);
+        for code in 0..combos {
+            let mut c = code;
+            let mut files = Vec::new();
+            for i in 0..n {
+                let (run, ts) = (42 + (c % 2) as u32, 100 * (1 + ((c / 2) % 4) as u32));
+                c /= 8;
+                let path = dir.join(format!("f{n}_{code}_{i}.mid"));
+                let mut b = vec![0x00u8, 0x80, 0x4D, 0x49];
+                b.extend(run.to_le_bytes()); b.extend(ts.to_le_bytes());
+                std::fs::write(&path, &b).unwrap();
+                files.push((run, ts, path));
+            }
+            cases += 1;
+            let paths: Vec<std::path::PathBuf> = files.iter().map(|f| f.2.clone()).collect();
+            let r = guarded(|| alpha_g_analysis::sort_run_files(paths.clone()));
+            let same_run = files.iter().all(|f| f.0 == files[0].0);
+            let mut ts: Vec<u32> = files.iter().map(|f| f.1).collect();
+            ts.sort();
+            let dup = ts.windows(2).any(|w| w[0] == w[1]);
+            let verdict = match r {
+                Err(p) => Some(format!("panic: {p}")),
+                Ok(Ok((run, sorted))) => {
+                    if !same_run { Some("files of different runs accepted".into()) }
+                    else if dup { Some("duplicate initial timestamps accepted".into()) }
+                    else {
+                        let mut exp = files.clone(); exp.sort_by_key(|f| f.1);
+                        if run != files[0].0 || sorted != exp.iter().map(|f| f.2.clone()).collect::<Vec<_>>() { Some("files not returned in order of initial timestamp".into()) } else { None }
+                    }
+                }
+                Ok(Err(_)) => if same_run && !dup { Some("well-formed set of files refused".into()) } else { None },
+            };
+            for f in &files { let _ = std::fs::remove_file(&f.2); }
+            if let Some(v) = verdict { fail = Some(format!("{v}: (run, initial timestamp) per file in command-line order = {:?}", files.iter().map(|f| (f.0, f.1)).collect::<Vec<_>>())); break 'outer; }
+        }
+    }
+    if fail.is_none() {
+        let p = dir.join("x.dat");
+        std::fs::write(&p, [0u8; 12]).unwrap();
+        cases += 1;
+        if alpha_g_analysis::sort_run_files(vec![p.clone()]).is_ok() { fail = Some("unknown extension accepted".into()); }
+        let _ = std::fs::remove_file(&p);
+    }
+    let _ = std::fs::remove_dir_all(&dir);
+    match fail {
+        None => json!({"status": "bounded-ok", "target": target, "bound": bound, "cases": cases, "distinct": cases}),
+        Some(reason) => json!({"status": "failed", "target": target, "bound": bound, "cases": cases, "distinct": cases, "reason": reason, "witness": null}),
+    }
+}
